@@ -23,6 +23,10 @@ pub enum Oracle {
     Cycles,
     /// C08: canonical interning across threads
     Intern,
+    /// C20: readers may be cancelled by the concurrent writer
+    Writer,
+    /// C21: thread 0's handle is cancelled through its token by an extra thread
+    LocalCancel,
     /// C14: cycles through non-recovering functions: a request ends in the least fixpoint, a cycle
     /// panic or a propagated panic; with `true`, no request into the cycle may return a value
     PlainCycle(bool),
@@ -42,6 +46,9 @@ pub struct Scen {
     pub phase2: bool,
     pub bound: u32,
     pub oracle: Oracle,
+    /// C20: operations the main handle performs while the reader threads run
+    #[serde(default)]
+    pub writer: Vec<Op>,
 }
 
 pub struct E2Spec {
@@ -90,8 +97,239 @@ fn outs_class(outs: &[Vec<Out>]) -> String {
         .join(" | ")
 }
 
+/// C20: readers on clones, a concurrent write on the main handle, then a second phase.
+fn writer_body(sc: &Scen) {
+    let prog = Arc::new(sc.prog.clone());
+    let mut sess = Sess::new(prog.clone());
+    let mut world = World::new(&prog);
+    for op in &sc.setup {
+        let _ = world.apply_write(&prog, op);
+        let _ = sess.apply(op);
+    }
+    sess.db.cx_arc().take_log();
+    let old_world = world.clone();
+    let handles: Vec<_> = sc
+        .threads
+        .iter()
+        .map(|ops| {
+            let db = sess.db.clone();
+            let ops = ops.clone();
+            shuttle::thread::spawn(move || {
+                let mut outs: Vec<Out> = Vec::new();
+                for op in &ops {
+                    let o = request(&db, op);
+                    let stop = matches!(o, Out::Panic(Pk::CancelPendingWrite) | Out::Panic(Pk::CancelPropagated));
+                    outs.push(o);
+                    if stop {
+                        break;
+                    }
+                }
+                // a cancelled (or finished) reader gives its handle back
+                drop(db);
+                outs
+            })
+        })
+        .collect();
+    // the writer: every write must return (the engine reports a deadlock otherwise)
+    for op in &sc.writer {
+        let e = world.apply_write(&prog, op);
+        let o = sess.apply(op);
+        if let (Some(Expect::Unit), Out::Panic(p)) = (&e, &o) {
+            viol(&format!("writer-panic:{}", sc.name), format!("write {op:?} panicked: {p:?}"));
+            return;
+        }
+    }
+    let mut outs: Vec<Vec<Out>> = Vec::new();
+    for h in handles {
+        match h.join() {
+            Ok(o) => outs.push(o),
+            Err(_) => {
+                viol(&format!("thread-panic:{}", sc.name), "a reader thread panicked outside a request".into());
+                return;
+            }
+        }
+    }
+    let log = sess.db.cx_arc().take_log();
+    outcome(format!("{}: {}", sc.name, outs_class(&outs)));
+    let cancelled_any = outs.iter().flatten().any(|o| matches!(o, Out::Panic(Pk::CancelPendingWrite)));
+    if cancelled_any {
+        bump("readers_cancelled_by_pending_write", 1);
+    }
+    if log.iter().any(|r| matches!(r, Rec::Ev { k: EvK::WillBlockOn(_), .. })) {
+        bump("threads_blocked_on_other_thread", 1);
+    }
+    bump("nontrivial_schedules", cancelled_any as u64);
+    for (t, ops) in sc.threads.iter().enumerate() {
+        for (i, o) in outs[t].iter().enumerate() {
+            let e = old_world.expect(&ops[i]);
+            let ok = match o {
+                Out::Panic(Pk::CancelPendingWrite) => true,
+                // only legal if some other reader was cancelled while this one waited on it
+                Out::Panic(Pk::CancelPropagated) => cancelled_any,
+                _ => out_matches(&e, o),
+            };
+            if !ok {
+                viol(
+                    &format!("reader-value:{}", sc.name),
+                    format!("reader {t} request {i} {:?}: expected the old revision's {e:?} or a pending-write cancellation, observed {o:?}", ops[i]),
+                );
+                return;
+            }
+        }
+    }
+    // phase 2: after the write every result equals a from-scratch evaluation
+    for op in &sc.phase2_writes {
+        let _ = world.apply_write(&prog, op);
+        let _ = sess.apply(op);
+    }
+    for n in 0..prog.nodes.len() as u8 {
+        let op = Op::Q(n);
+        let e = world.expect(&op);
+        let o = sess.apply(&op);
+        if !out_matches(&e, &o) {
+            viol(
+                &format!("post-write-value:{}", sc.name),
+                format!("after the write, node {n}: expected {e:?}, observed {o:?} (readers: {})", outs_class(&outs)),
+            );
+            return;
+        }
+    }
+    sess.db.cx_arc().take_log();
+}
+
+/// C21: thread A (index 0) runs its requests, thread B cancels A's token once, the remaining
+/// threads run overlapping requests; afterwards A retries until a request succeeds.
+fn cancel_body(sc: &Scen) {
+    use salsa::Database;
+    let prog = Arc::new(sc.prog.clone());
+    let mut sess = Sess::new(prog.clone());
+    let mut world = World::new(&prog);
+    for op in &sc.setup {
+        let _ = world.apply_write(&prog, op);
+        let _ = sess.apply(op);
+    }
+    sess.db.cx_arc().take_log();
+    let a_db = sess.db.clone();
+    let token = a_db.cancellation_token();
+    let a_ops = sc.threads[0].clone();
+    let a = shuttle::thread::spawn(move || {
+        let outs: Vec<Out> = a_ops.iter().map(|op| request(&a_db, op)).collect();
+        (a_db, outs)
+    });
+    let b = shuttle::thread::spawn(move || {
+        // the moment of the cancellation is chosen by the scheduler
+        shuttle::thread::yield_now();
+        token.cancel();
+    });
+    let others: Vec<_> = sc.threads[1..]
+        .iter()
+        .map(|ops| {
+            let db = sess.db.clone();
+            let ops = ops.clone();
+            shuttle::thread::spawn(move || {
+                let outs: Vec<Out> = ops.iter().map(|op| request(&db, op)).collect();
+                drop(db);
+                outs
+            })
+        })
+        .collect();
+    let (a_db, a_outs) = match a.join() {
+        Ok(x) => x,
+        Err(_) => {
+            viol(&format!("thread-panic:{}", sc.name), "thread A panicked outside a request".into());
+            return;
+        }
+    };
+    let _ = b.join();
+    let mut other_outs = Vec::new();
+    for h in others {
+        match h.join() {
+            Ok(o) => other_outs.push(o),
+            Err(_) => {
+                viol(&format!("thread-panic:{}", sc.name), "a thread panicked outside a request".into());
+                return;
+            }
+        }
+    }
+    // A retries (the token was cancelled at most once)
+    let mut retry_outs = Vec::new();
+    for op in &sc.threads[0] {
+        retry_outs.push(request(&a_db, op));
+    }
+    let retry2: Vec<Out> = sc.threads[0].iter().map(|op| request(&a_db, op)).collect();
+    drop(a_db);
+    let log = sess.db.cx_arc().take_log();
+    let mut all = vec![a_outs.clone()];
+    all.extend(other_outs.iter().cloned());
+    outcome(format!("{}: {} || retry {}", sc.name, outs_class(&all), outs_class(&[retry_outs.clone()])));
+    let n_local = a_outs.iter().chain(retry_outs.iter()).filter(|o| matches!(o, Out::Panic(Pk::CancelLocal))).count();
+    bump("local_cancellations_observed", n_local as u64);
+    if n_local > 0 && log.iter().any(|r| matches!(r, Rec::Ev { k: EvK::WillBlockOn(_), .. })) {
+        bump("schedules_with_cancellation_and_a_blocked_thread", 1);
+    }
+    bump("nontrivial_schedules", (n_local > 0) as u64);
+    // A: every result is the reference or a local cancellation; at most one per cancel()
+    for (i, o) in a_outs.iter().chain(retry_outs.iter()).enumerate() {
+        let op = &sc.threads[0][i % sc.threads[0].len()];
+        let e = world.expect(op);
+        if !(matches!(o, Out::Panic(Pk::CancelLocal)) || out_matches(&e, o)) {
+            viol(&format!("cancelled-handle-value:{}", sc.name), format!("thread A request {i} {op:?}: expected {e:?} or a local cancellation, observed {o:?}"));
+            return;
+        }
+    }
+    if n_local > 1 {
+        viol(&format!("cancelled-twice:{}", sc.name), format!("one cancel() cancelled {n_local} computations of the handle"));
+        return;
+    }
+    // the request right after a cancelled one runs normally
+    let firsts: Vec<&Out> = a_outs.iter().chain(retry_outs.iter()).collect();
+    for w in firsts.windows(2) {
+        if matches!(w[0], Out::Panic(Pk::CancelLocal)) && matches!(w[1], Out::Panic(_)) {
+            viol(&format!("token-not-reset:{}", sc.name), format!("the request after a locally cancelled one ended in {:?}", w[1]));
+            return;
+        }
+    }
+    for (i, o) in retry2.iter().enumerate() {
+        let e = world.expect(&sc.threads[0][i]);
+        if !out_matches(&e, o) {
+            viol(&format!("cancelled-handle-value:{}", sc.name), format!("thread A second retry {i}: expected {e:?}, observed {o:?}"));
+            return;
+        }
+    }
+    // other handles are unaffected
+    for (t, outs) in other_outs.iter().enumerate() {
+        for (i, o) in outs.iter().enumerate() {
+            let e = world.expect(&sc.threads[t + 1][i]);
+            if !out_matches(&e, o) {
+                viol(
+                    &format!("other-handle-affected:{}", sc.name),
+                    format!("thread {} request {i} {:?}: expected {e:?}, observed {o:?} (thread A: {})", t + 1, sc.threads[t + 1][i], outs_class(&[a_outs.clone()])),
+                );
+                return;
+            }
+        }
+    }
+    // cancellation is disabled during fixpoint iteration: no fixpoint activation is unwound
+    if n_local > 0 {
+        for r in &log {
+            if let Rec::Exit { f, unwinding: true, th, .. } = r {
+                if matches!(f, F::Fx | F::Fxj | F::Fb) {
+                    viol(&format!("cancelled-inside-fixpoint:{}", sc.name), format!("a local cancellation unwound through an activation of {f:?} on thread {th}"));
+                    return;
+                }
+            }
+        }
+    }
+    let _ = &mut world;
+}
+
 /// One execution of a scenario under the controlled scheduler.
 fn scen_body(sc: &Scen) {
+    match sc.oracle {
+        Oracle::Writer => return writer_body(sc),
+        Oracle::LocalCancel => return cancel_body(sc),
+        _ => {}
+    }
     let prog = Arc::new(sc.prog.clone());
     let mut sess = Sess::new(prog.clone());
     let mut world = World::new(&prog);
